@@ -11,6 +11,9 @@
   * `fixedSize…`        — `_g_ir_node_get_size`: the extent of a directory entry's blob with its
                           inline members, from the counts stored in the blob
   * `headerArea`        — the offsets `_g_ir_module_build_typelib` derives before the first blob
+  * `dirIndex…`         — the size arithmetic of the directory index section
+                          (`add_directory_index_section` of girmodule.c, `_gi_typelib_hash_builder_prepare`
+                          / `_pack` of gthash.c) with the width of the C variable holding the size
 
   Blob sizes are the generated `sizeof` values (Model/Typelib `sizeOf'`), not literals.
 -/
@@ -139,5 +142,29 @@ def headerArea (strLens : List Nat) (nEntries passes : Nat) : HeaderArea :=
   let sections := align4 headerSize
   let directory := sections + Gen.numSections * sizeOf' "Section"
   { sections := sections, directory := directory, firstBlob := directory + nEntries * sizeOf' "DirEntry" }
+
+/-! ### the directory index section (`add_directory_index_section`, gthash.c) -/
+
+/-- assignment to an unsigned C variable of `bits` bits -/
+def storeIn (bits v : Nat) : Nat := v % 2 ^ bits
+
+/-- gthash.c `_gi_typelib_hash_builder_prepare`:
+    `offset = sizeof (guint32) + cmph_packed_size (c); dirmap_offset = ALIGN_VALUE (offset, 4)` -/
+def dirmapOffset (cmphPacked : Nat) : Nat := align4 (4 + cmphPacked)
+
+/-- `packed_size = dirmap_offset + num_elts * sizeof (guint16)` -/
+def hashPackedSize (dirmap nElts : Nat) : Nat := dirmap + 2 * nElts
+
+/-- `add_directory_index_section`: `required_size = _gi_typelib_hash_builder_get_buffer_size (b);
+    required_size = ALIGN_VALUE (required_size, 4);` where `required_size` is an unsigned variable of
+    `bits` bits (the macro computes in `unsigned long`, the assignment truncates) -/
+def dirIndexRequired (bits packed : Nat) : Nat := storeIn bits (align4 (storeIn bits packed))
+
+/-- the `g_assert (len >= builder->packed_size)` of `_gi_typelib_hash_builder_pack`, called with
+    `len = required_size`: false means g-ir-compiler aborts -/
+def dirIndexPackOk (bits packed : Nat) : Bool := decide (packed ≤ dirIndexRequired bits packed)
+
+/-- `new_offset = *offset2 + required_size` (the file ends there: `header->size = offset2`) -/
+def dirIndexEnd (bits offset2 packed : Nat) : Nat := offset2 + dirIndexRequired bits packed
 
 end GIVerif.Typelib
